@@ -8,6 +8,7 @@ import (
 	"os"
 	"path/filepath"
 	"sort"
+	"sync"
 )
 
 // ReadNDJSON reads a file of one JSON value per line.
@@ -43,7 +44,8 @@ func ListFiles(dir, pattern string) []string {
 
 // Writer appends JSON lines to a file.
 type Writer struct {
-	f *os.File
+	mu sync.Mutex
+	f  *os.File
 	w *bufio.Writer
 	N int
 }
@@ -64,12 +66,16 @@ func (w *Writer) Write(v any) error {
 	if err != nil {
 		return err
 	}
+	w.mu.Lock()
+	defer w.mu.Unlock()
 	w.N++
 	_, err = w.w.Write(append(b, '\n'))
 	return err
 }
 
 func (w *Writer) Close() error {
+	w.mu.Lock()
+	defer w.mu.Unlock()
 	if err := w.w.Flush(); err != nil {
 		return err
 	}
